@@ -15,6 +15,7 @@ package main
 //	cboring.ReadByteString(r) / ReadTextString(r)       kind readstring (length read inside the library)
 //	for { … } whose body reads from the wire            kind loopbreak
 //	xz.NewReader(r)                                     kind xzreader (dictionary sized by the stream header)
+//	f(…, n, …) with n a decoded number                  kind call (the callee may allocate by it elsewhere)
 //
 // each with the provenance of its size expression (const | lenMem | wire | param | local), the declared
 // type of the size variable, every textually dominating guard on that variable (enclosing if / else
@@ -408,6 +409,9 @@ func (fn *c04Fn) collect(body *ast.BlockStmt) {
 		})
 	}
 }
+
+var c04Builtins = map[string]bool{"len": true, "cap": true, "append": true, "copy": true, "make": true, "new": true,
+	"panic": true, "print": true, "println": true, "delete": true, "close": true, "recover": true}
 
 var c04ConvNames = map[string]bool{"int": true, "int8": true, "int16": true, "int32": true, "int64": true, "uint": true,
 	"uint8": true, "uint16": true, "uint32": true, "uint64": true, "byte": true, "uintptr": true}
@@ -1015,6 +1019,33 @@ func (fn *c04Fn) exprs(ctx []c04Guard, es ...ast.Expr) {
 					*fn.sites = append(*fn.sites, c04Site{file: fn.file, fn: fn.name, kind: "xzreader", size: name, prov: "wire", pos: n.Pos()})
 				case name == "cboring.ReadByteString" || name == "cboring.ReadTextString":
 					*fn.sites = append(*fn.sites, c04Site{file: fn.file, fn: fn.name, kind: "readstring", size: name, prov: "wire", pos: n.Pos()})
+				default:
+					// a decoded number handed to some other function (which may allocate by it elsewhere)
+					if c04IsConversion(n) || c04Builtins[name] || isLogging(name) || strings.HasPrefix(name, "fmt.") ||
+						strings.HasPrefix(name, "log.") || strings.HasPrefix(name, "binary.") {
+						break
+					}
+					for _, a := range n.Args {
+						if u, ok := a.(*ast.UnaryExpr); ok && u.Op == token.AND {
+							continue // &x: a destination, not a size
+						}
+						prov, keys, typ := fn.classify(a)
+						numeric := prov == "wire"
+						if prov == "param" {
+							numeric = false
+							for _, k := range keys {
+								if c04ConvNames[fn.params[k]] {
+									numeric = true
+								}
+							}
+						}
+						if !numeric {
+							continue
+						}
+						g, b, l := fn.guardsFor(keys, ctx)
+						*fn.sites = append(*fn.sites, c04Site{file: fn.file, fn: fn.name, kind: "call", size: name + "(" + fn.x.Src(a) + ")", elem: name,
+							prov: prov, typ: typ, guard: g, bound: b, lower: l, pos: n.Pos()})
+					}
 				}
 			}
 			return true
